@@ -243,7 +243,11 @@ func runBehaviour(w *World, beh []Step, usePEM bool, rep *vh.Report, kinds map[s
 			continue
 		}
 		if bad != "" {
-			rep.Violate(fp("returned-unverified"), desc+": "+bad, ctxt)
+			what := "returned-unverified"
+			if strings.HasPrefix(bad, "SCT log id") {
+				what = "returned-foreign-logid" // the signature is fine, the SCT names another (or no) log
+			}
+			rep.Violate(fp(what), desc+": "+bad, ctxt)
 			continue
 		}
 		if d := sameAsSent(w, s, last, res); d != "" && (s.Expect == "ok" || s.Layer == "entry" || s.Layer == "signed") {
